@@ -1,5 +1,4 @@
 import BareProofs.C20Lemmas
-import BareModel.Gen.Includes
 
 /-!
 # C20 — `diffLines` from the shipped include library reconstructs both inputs
@@ -19,9 +18,10 @@ equality — `String` in the driver):
                                         array whose parts are split and concatenated)
 * `splitLines_ne_nil`, `lines_of_line_array`  a string always has at least one line; an array of LF-free strings is its own
                                         line list
-* `includes_parse_validate_lintclean`   kernel-side record of the finite fact that every shipped include script parses,
-                                        validates against the schema and has no lint warning (`Gen/Includes`, regenerated
-                                        from the working tree on every run)
+
+The finite fact "every shipped include script parses, validates and is lint-clean" is `C20.includes_parse_validate_lintclean`
+in `BareProofs/C20Includes.lean` (a module of its own, so that a lint warning in some include does not take the `diffLines`
+theorems down with it).
 -/
 
 namespace C20
@@ -166,16 +166,5 @@ theorem diffInputs_identical (l r : Input) (h : l.lines = r.lines) : ∀ b ∈ d
 
 example : (Input.text "a\nb").lines = (Input.parts ["a\r\nb"]).lines
     ∧ diffInputs (.text "a\nb") (.parts ["a\r\nb"]) = [⟨.identical, ["a", "b"]⟩] := by decide
-
-/-! ## the shipped include library -/
-
-/-- **Every shipped include script parses, validates against the schema and is lint-clean** — the finite fact, as
-`parse_script`, `validate_script` and `lint_script` of the working tree report it (table regenerated on every run). -/
-theorem includes_parse_validate_lintclean :
-    ∀ inc ∈ Gen.includes, inc.parses = true ∧ inc.validates = true ∧ inc.lint = [] := by
-  decide
-
-/-- the table is not empty and `diff.bare` is in it -/
-example : "diff.bare" ∈ Gen.includes.map (·.name) ∧ 0 < Gen.includes.length := by decide
 
 end C20
